@@ -154,6 +154,12 @@ def rows(limit=None):
         if vn == '-' and on in TEXT:
             continue
         row(f"each[{vn}][{on}]", f"{vsrc}'{osrc}", listof([app.format(a=it) for it in items]))
+    # Each-Index: f applied to the [index member] pairs
+    for vn, app in (('{x@1}', '{{x@1}}({a})'), ('{x@0}', '{{x@0}}({a})'), ('{(x@0)+#x@1}', '{{(x@0)+#x@1}}({a})'), ('{x}', '{{x}}({a})')):
+        for on, (osrc, items) in OPERANDS.items():
+            if not items:
+                continue
+            row(f"each-index[{vn}][{on}]", f"{vn}@'{osrc}", listof([app.format(a=f"{i},,({it})") for i, it in enumerate(items)]))
     # Iterate / Scan-Iterating: literal and computed counts (a computed count is a NumPy integer)
     for cn, csrc, cnt in (('literal', '3', 3), ('computed', '(1+2)', 3), ('from-list', '([3 9]@0)', 3), ('zero', '(1-1)', 0)):
         for vn, (vsrc, app) in (('{x*2}', ('{x*2}', '{{x*2}}({a})')), ('{1,x}', ('{1,x}', '{{1,x}}({a})'))):
